@@ -443,6 +443,11 @@ GuardsRetBuild(st, e) ==
                                             {"canceled", "build"} \subseteq err, NONE),
      G("only_cancelled_build_is_canceled", {"C15"}, "canceled" \in err => st.cur.cancelled, NONE),
      G("missing_rejected", {"C08"}, Missing(cfg) => ~ok, NONE),
+     \* a constructor may have kept the provider it was handed before Build failed: after the clean-up it refuses
+     G("failed_build_provider_refuses", {"C13"},
+        ("afterfail" \in DOMAIN e /\ ~ok) => \A i \in DOMAIN e.afterfail : e.afterfail[i] \in {"providerDisposed", "scopeDisposed"} => e.afterfail[i] = "providerDisposed", NONE),
+     G("failed_build_provider_is_closed", {"C13"},
+        ("afterfail" \in DOMAIN e /\ ~ok) => "providerDisposed" \in Range(e.afterfail), NONE),
      G("eager_failure_reported", {"C15"}, FailureReported(st, st.cur, err), NONE),
      G("failed_build_closes_all", {"C10"}, ~ok => AllClosed(st, {i \in InstIds(st) : st.inst[i].disp /\ st.inst[i].inv # 0}), NONE),
      G("ok_build_closes_nothing", {"C10"}, ok => st.cur.ncl = 0, NONE),
@@ -547,7 +552,7 @@ GuardsRetClose(st, e) ==
     {G("close_reports_errors", {"C12"}, c.op # "cancel" => (("disposal" \in err) <=> (c.nclerr > 0)), NONE),
      G("close_no_other_error", {"C12"}, err \subseteq {"disposal"}, NONE),
      G("second_close_noop", {"C12"}, ~c.wasOpen => (err = {} /\ c.ncl = 0), NONE),
-     G("close_closes_all_owned", {"C10"}, AllClosed(st, MustClose(st, sub)), NONE),
+     G("close_closes_all_owned", {"C10", "C12"}, AllClosed(st, MustClose(st, sub)), NONE),
      \* cancelling the context given to CreateScope is visible on the scope's context when cancel() returns
      G("cancel_reaches_scope_ctx", {"C18"}, c.op = "cancel" => e.ctxok, NONE)}
 
